@@ -74,12 +74,14 @@ def make_task(rng, W=None, GS=None, starve=None, variant=None):
     elif variant == "long":
         n_par = len(g["shapes"])
         base = [True] * n_par
-        if n_par > 1 and rng.random() < 0.5:
-            base[rng.randrange(n_par)] = False              # a parameter that is frozen for the first 18 steps ...
+        frozen = rng.randrange(n_par) if n_par > 1 else None
+        if frozen is not None:
+            base[frozen] = False                            # a parameter that is frozen for the first 18 steps ...
         masks = [[list(base)] for _ in range(18)]
         cur = list(base)
-        for _ in range(4):                                   # ... and presence changes only afterwards
-            cur[rng.randrange(n_par)] ^= True
+        for k in range(4):                                   # ... is unfrozen at step 19; further changes follow
+            j = frozen if (k == 0 and frozen is not None) else rng.randrange(n_par)
+            cur[j] ^= True
             if not any(cur):
                 cur[rng.randrange(n_par)] = True
             masks.append([list(cur)])
